@@ -46,41 +46,27 @@ Proof.
     destruct (IH _ _ Ha' Hb') as (xc & Hc & Hs). exists xc. split; [apply lastq_cons; exact Hc|exact Hs].
 Qed.
 
-(** ** the acceleration of a recorded, not-held instant, in SI: a DC motor with current data at a duty cycle above the dead zone,
-    a load of SI magnitude L *)
-Section Linear.
+(** ** the acceleration of a recorded, not-held instant, in SI, for ANY motor law [Tlaw] (SI torque as a function of SI motor speed
+    and duty cycle) that the model's [motor_torque] is shown to follow; a load of SI magnitude L *)
+Definition Rr (c : @chain RA) : R := prodR (ratios c).
+Definition Gg (c : @chain RA) : R := gainR (c_elems c).
+
+Section Law.
 Variable c : @chain RA.
 Variable load : rq -> rq -> rq -> res rq.
-Variables i0 imax : rq.
-Hypothesis Hi0 : m_i0 (c_motor c) = Some i0.
-Hypothesis Himax : m_imax (c_motor c) = Some imax.
-Variables W0 TM I0 IM L : R.
-Hypothesis sW0 : si (m_w0 (c_motor c)) = Ok W0.
-Hypothesis sTM : si (m_Tmax (c_motor c)) = Ok TM.
-Hypothesis sI0 : si i0 = Ok I0.
-Hypothesis sIM : si imax = Ok IM.
-Hypothesis kT : qk (m_Tmax (c_motor c)) = KTorque.
-Hypothesis kI0 : qk i0 = KCurrent.
-Hypothesis kIM : qk imax = KCurrent.
+Variables W0 L : R.
+Variable Tlaw : R -> R -> R.
+Hypothesis Hlaw : forall (spd : rq) w D T, si spd = Ok w -> motor_torque (c_motor c) spd D = Ok T -> qk T = KTorque /\ si T = Ok (Tlaw w D).
 (** the user's load function returns a torque of SI magnitude L whatever its arguments (a constant load) *)
 Hypothesis load_const : forall t p w lt, load t p w = Ok lt -> qk lt = KTorque /\ si lt = Ok L.
 
-Definition Rr : R := prodR (ratios c).
-Definition Gg : R := gainR (c_elems c).
-
-(** the maximum torque at duty cycle D outside the dead zone, for either sign of D (documented characteristic, C08) *)
-Definition TDs (D : R) : R := if Rlt_dec 0 D then TM * ((D * IM - I0) / (IM - I0)) else TM * ((D * IM + I0) / (IM - I0)).
-
-Theorem instant_acceleration_SI ctl J t f v locked prov (s : @snap RA) JJ wl w :
+Theorem instant_acceleration_law ctl J t f v locked prov (s : @snap RA) JJ wl w :
   instant_facts c load ctl J t f v locked prov s -> s_locked s = false ->
   si J = Ok JJ -> qk J = KInertiaMoment ->
   lastq (s_spd s) = Ok wl -> si wl = Ok w ->
-  0 <= I0 / IM -> I0 / IM < Rabs (s_pwm s) ->
-  let D := s_pwm s in
-  let TD := TDs D in
-  exists a, lastq (s_acc s) = Ok a /\ si a = Ok ((TD * (1 - Rr * w / (D * W0)) * Gg - L) / JJ).
+  exists a, lastq (s_acc s) = Ok a /\ si a = Ok ((Tlaw (Rr c * w) (s_pwm s) * Gg c - L) / JJ).
 Proof.
-  intros Hf Hlk sJ kJ Hwl sw Hp0 HD. cbv zeta. remember (s_pwm s) as D eqn:ED.
+  intros Hf Hlk sJ kJ Hwl sw.
   (* speeds *)
   destruct (if_spd1 _ _ _ _ _ _ _ _ _ _ Hf) as (spd1 & spd0 & Hb & Hh0 & _ & Hs). rewrite Hlk in Hs.
   destruct (back_prop_spec _ _ _ Hb) as (Hlink & Hlast & _). rewrite Hs in Hwl. rewrite Hlast in Hwl. injection Hwl as Hwl.
@@ -88,7 +74,7 @@ Proof.
   destruct (linked_si _ _ Hlink _ _ Hlast sv) as (h & Hh & Hsh & Hkh).
   (* driving torque *)
   destruct (if_drive _ _ _ _ _ _ _ _ _ _ Hf) as (spd0' & d0 & Hh' & Hm & Hd & _). rewrite Hs in Hh'. rewrite Hh in Hh'. injection Hh' as <-.
-  destruct (motor_torque_doc _ _ _ Hi0 Himax _ _ _ _ sW0 sTM sI0 sIM kT kI0 kIM _ _ _ _ Hsh Hm) as (kd0 & _ & sd0).
+  destruct (Hlaw _ _ _ _ Hsh Hm) as (kd0 & sd0).
   destruct (drive_prop_spec _ _ _ Hd) as (Hdl & Hdh & _).
   destruct (drive_linked_si _ _ Hdl _ _ Hdh sd0) as (xd & Hxd & sxd & kxd).
   (* load torque *)
@@ -102,14 +88,7 @@ Proof.
   generalize (if_acc _ _ _ _ _ _ _ _ _ _ Hf). rewrite Hlk. intros (tl & a & Htl & Ha & Hba).
   rewrite Hxc in Htl. injection Htl as <-.
   destruct (q_divq_si _ _ _ _ _ Ha sxc sJ) as (_ & _ & sa).
-  exists a. split; [apply (back_prop_spec _ _ _ Hba)|]. rewrite sa. f_equal.
-  rewrite <- ED in *. unfold T_doc, pmin.
-  destruct (Rle_dec (Rabs D) (I0 / IM)) as [Habs|Habs].
-  - exfalso. lra.
-  - unfold TDs. destruct (Rlt_dec (I0 / IM) D) as [Hgt|Hngt].
-    + destruct (Rlt_dec 0 D); [|lra]. unfold Rr, Gg. reflexivity.
-    + destruct (Rlt_dec 0 D) as [Hpos'|_]; [|unfold Rr, Gg; reflexivity].
-      exfalso. rewrite Rabs_right in Habs by lra. lra.
+  exists a. split; [apply (back_prop_spec _ _ _ Hba)|]. rewrite sa. unfold Rr, Gg. reflexivity.
 Qed.
 
 (** one step, in SI *)
@@ -127,30 +106,31 @@ Proof.
   exists w', p'. auto.
 Qed.
 
-(** ** a whole unheld history at constant duty cycle D and constant step follows the Euler recurrence of C04Core *)
+(** ** a whole unheld history at constant duty cycle D and constant step follows the Euler recurrence of C04Core, whenever the
+    law is linear in the speed at that duty cycle:  Tlaw w D = TDc (1 - w / (Dc W0)) *)
 Variables JJ DT D : R.
 Variable J dt0 : rq.
 Hypothesis HJ : equivalent_inertia c = Ok J.
 Hypothesis sJ : si J = Ok JJ.
 Hypothesis kJ : qk J = KInertiaMoment.
 Hypothesis sdt : si dt0 = Ok DT.
-Hypothesis HD : I0 / IM < Rabs D.
-Hypothesis Hpos : 0 <= I0 /\ 0 < IM /\ 0 < W0 /\ 0 < JJ.
-Let TD := TDs D.
+Variables TDc Dc : R.
+Hypothesis Hlin : forall w, Tlaw w D = TDc * (1 - w / (Dc * W0)).
+Hypothesis Hnz : Dc <> 0 /\ W0 <> 0 /\ JJ <> 0.
 (** the coefficients of  w' = A - kap w  for the output element *)
-Definition A_lin : R := (TD * Gg - L) / JJ.
-Definition kap_lin : R := TD * Gg * Rr / (D * W0 * JJ).
+Definition A_g : R := (TDc * Gg c - L) / JJ.
+Definition kap_g : R := TDc * Gg c * Rr c / (Dc * W0 * JJ).
 
 Definition uniform (h : list (rq * @snap RA)) : Prop :=
   forall t s, In (t, s) h -> s_locked s = false /\ s_pwm s = D /\ (s_dt s = None \/ s_dt s = Some dt0).
 
-Theorem history_follows_euler (h : list (rq * @snap RA)) : hist_ok c load h -> uniform h -> h <> [] ->
+Theorem history_follows_euler_g (h : list (rq * @snap RA)) : hist_ok c load h -> uniform h -> h <> [] ->
   forall t0 s0 pre, h = (pre ++ [(t0, s0)])%list ->
   forall w0 p0 W00 P00, lastq (s_spd s0) = Ok w0 -> lastq (s_pos s0) = Ok p0 -> si w0 = Ok W00 -> si p0 = Ok P00 ->
   forall t s rest, h = (t, s) :: rest ->
   exists wk pk, lastq (s_spd s) = Ok wk /\ lastq (s_pos s) = Ok pk /\
-    si wk = Ok (snd (C04Core.euler A_lin kap_lin DT W00 P00 (length rest))) /\
-    si pk = Ok (fst (C04Core.euler A_lin kap_lin DT W00 P00 (length rest))).
+    si wk = Ok (snd (C04Core.euler A_g kap_g DT W00 P00 (length rest))) /\
+    si pk = Ok (fst (C04Core.euler A_g kap_g DT W00 P00 (length rest))).
 Proof.
   intros Hh. induction Hh as [|t1 s1 v1 Hd1 Hs1|t2 s2 t1 s1 h' dt Hd2 Hst Hh' IH]; intros Hu Hne t0 s0 pre E w0 p0 W00 P00 Hw0 Hp0 sw0 sp0 t s rest Ehd.
   - contradiction.
@@ -164,28 +144,118 @@ Proof.
     destruct (Hu' t1 s1 (or_introl eq_refl)) as (Hlk1 & Hpw1 & _).
     assert (Edt : dt = dt0) by (destruct Hdt2 as [Hn|Hs]; congruence). subst dt.
     (* acceleration of s1 *)
-    assert (Hpmin : 0 <= I0 / IM).
-    { destruct Hpos as (H1 & H2 & _). apply Rmult_le_pos; [lra|left; apply Rinv_0_lt_compat; lra]. }
     destruct (hist_ok_in _ _ _ _ _ Hh' (or_introl eq_refl)) as (v & ctl & J' & f & locked & prov & HJ' & _ & Hf1).
     rewrite HJ in HJ'. injection HJ' as <-.
-    destruct (instant_acceleration_SI ctl J t1 f v locked prov s1 JJ wk _ Hf1 Hlk1 sJ kJ Hwk swk Hpmin ltac:(rewrite Hpw1; exact HD)) as (a1 & Ha1 & sa1).
+    destruct (instant_acceleration_law ctl J t1 f v locked prov s1 JJ wk _ Hf1 Hlk1 sJ kJ Hwk swk) as (a1 & Ha1 & sa1).
     destruct (step_ok_SI dt0 s1 s2 DT a1 wk pk _ _ _ (stepped_step_ok _ _ _ _ _ _ Hst) Hlk2 sdt Ha1 Hwk Hpk sa1 swk spk) as (w' & p' & Hw' & Hp' & sw' & sp').
     exists w', p'. split; [exact Hw'|]. split; [exact Hp'|].
-    cbn [length C04Core.euler]. destruct (C04Core.euler A_lin kap_lin DT W00 P00 (length h')) as [th w] eqn:Ee. cbn [fst snd] in *.
-    rewrite Hpw1 in sw', sp'. fold TD in sw', sp'.
-    assert (Ealg : w + (TD * (1 - Rr * w / (D * W0)) * Gg - L) / JJ * DT = w + (A_lin - kap_lin * w) * DT).
-    { unfold A_lin, kap_lin. assert (D <> 0 /\ W0 <> 0 /\ JJ <> 0) as (HD0 & HW0 & HJ0).
-      { destruct Hpos as (H1 & H2 & H3 & H4). repeat split; try lra. intros E0. assert (HD' := HD). rewrite E0, Rabs_R0 in HD'. lra. }
-      field. auto. }
+    cbn [length C04Core.euler]. destruct (C04Core.euler A_g kap_g DT W00 P00 (length h')) as [th w] eqn:Ee. cbn [fst snd] in *.
+    rewrite Hpw1, Hlin in sw', sp'.
+    assert (Ealg : w + (TDc * (1 - Rr c * w / (Dc * W0)) * Gg c - L) / JJ * DT = w + (A_g - kap_g * w) * DT).
+    { unfold A_g, kap_g. destruct Hnz as (H1 & H2 & H3). field. auto. }
     rewrite Ealg in sw', sp'. split; [exact sw'|exact sp'].
 Qed.
 
 (** hence (C04): the simulated speed and position of the output element stay within a bound proportional to the step of the
     closed-form exponential solution, at every recorded instant *)
+Hypothesis Hkap : 0 < kap_g.
+Hypothesis Hx : kap_g * DT <= 1/5.
+Hypothesis HDT : 0 < DT.
+Theorem model_converges_g (h : list (rq * @snap RA)) : hist_ok c load h -> uniform h -> h <> [] ->
+  forall t0 s0 pre, h = (pre ++ [(t0, s0)])%list ->
+  forall w0 p0 W00 P00, lastq (s_spd s0) = Ok w0 -> lastq (s_pos s0) = Ok p0 -> si w0 = Ok W00 -> si p0 = Ok P00 ->
+  forall t s rest, h = (t, s) :: rest ->
+  let k := length rest in
+  exists wk pk Wk Pk, lastq (s_spd s) = Ok wk /\ lastq (s_pos s) = Ok pk /\ si wk = Ok Wk /\ si pk = Ok Pk /\
+    Rabs (Wk - C04Core.w_exact A_g kap_g W00 (INR k * DT)) <= 2/5 * (kap_g * DT) * Rabs (W00 - A_g / kap_g) /\
+    Rabs (Pk - C04Core.th_exact A_g kap_g W00 P00 (INR k * DT)) <= DT * Rabs (W00 - A_g / kap_g).
+Proof.
+  intros Hh Hu Hne t0 s0 pre E w0 p0 W00 P00 Hw0 Hp0 sw0 sp0 t s rest Ehd k.
+  destruct (history_follows_euler_g h Hh Hu Hne t0 s0 pre E w0 p0 W00 P00 Hw0 Hp0 sw0 sp0 t s rest Ehd) as (wk & pk & Hwk & Hpk & swk & spk).
+  exists wk, pk. do 2 eexists. split; [exact Hwk|]. split; [exact Hpk|]. split; [exact swk|]. split; [exact spk|]. split.
+  - apply C04Core.speed_error; assumption.
+  - apply C04Core.position_error; assumption.
+Qed.
+End Law.
+
+(** ** a DC motor with current data (documented characteristic [T_doc], C08), duty cycle of either sign outside the dead zone *)
+Section Linear.
+Variable c : @chain RA.
+Variable load : rq -> rq -> rq -> res rq.
+Variables i0 imax : rq.
+Hypothesis Hi0 : m_i0 (c_motor c) = Some i0.
+Hypothesis Himax : m_imax (c_motor c) = Some imax.
+Variables W0 TM I0 IM L : R.
+Hypothesis sW0 : si (m_w0 (c_motor c)) = Ok W0.
+Hypothesis sTM : si (m_Tmax (c_motor c)) = Ok TM.
+Hypothesis sI0 : si i0 = Ok I0.
+Hypothesis sIM : si imax = Ok IM.
+Hypothesis kT : qk (m_Tmax (c_motor c)) = KTorque.
+Hypothesis kI0 : qk i0 = KCurrent.
+Hypothesis kIM : qk imax = KCurrent.
+Hypothesis load_const : forall t p w lt, load t p w = Ok lt -> qk lt = KTorque /\ si lt = Ok L.
+
+(** the maximum torque at duty cycle D outside the dead zone, for either sign of D (documented characteristic, C08) *)
+Definition TDs (D : R) : R := if Rlt_dec 0 D then TM * ((D * IM - I0) / (IM - I0)) else TM * ((D * IM + I0) / (IM - I0)).
+
+Lemma law_currents : forall (spd : rq) w D T, si spd = Ok w -> motor_torque (c_motor c) spd D = Ok T ->
+  qk T = KTorque /\ si T = Ok (T_doc W0 TM I0 IM w D).
+Proof. intros spd w D T sw H. destruct (motor_torque_doc _ _ _ Hi0 Himax _ _ _ _ sW0 sTM sI0 sIM kT kI0 kIM _ _ _ _ sw H) as (k & _ & sT). auto. Qed.
+Lemma T_doc_linear D : 0 <= I0 / IM -> I0 / IM < Rabs D -> forall w, T_doc W0 TM I0 IM w D = TDs D * (1 - w / (D * W0)).
+Proof.
+  intros Hp0 HD w. unfold T_doc, pmin, TDs.
+  destruct (Rle_dec (Rabs D) (I0 / IM)) as [Habs|Habs]; [exfalso; lra|].
+  destruct (Rlt_dec (I0 / IM) D) as [Hgt|Hngt].
+  - destruct (Rlt_dec 0 D); [reflexivity|lra].
+  - destruct (Rlt_dec 0 D) as [Hpos'|_]; [|reflexivity]. exfalso. rewrite Rabs_right in Habs by lra. lra.
+Qed.
+
+Theorem instant_acceleration_SI ctl J t f v locked prov (s : @snap RA) JJ wl w :
+  instant_facts c load ctl J t f v locked prov s -> s_locked s = false ->
+  si J = Ok JJ -> qk J = KInertiaMoment ->
+  lastq (s_spd s) = Ok wl -> si wl = Ok w ->
+  0 <= I0 / IM -> I0 / IM < Rabs (s_pwm s) ->
+  let D := s_pwm s in
+  let TD := TDs D in
+  exists a, lastq (s_acc s) = Ok a /\ si a = Ok ((TD * (1 - Rr c * w / (D * W0)) * Gg c - L) / JJ).
+Proof.
+  intros Hf Hlk sJ kJ Hwl sw Hp0 HD. cbv zeta.
+  destruct (instant_acceleration_law c load L _ law_currents load_const ctl J t f v locked prov s JJ wl w Hf Hlk sJ kJ Hwl sw) as (a & Ha & sa).
+  exists a. split; [exact Ha|]. rewrite sa. rewrite (T_doc_linear _ Hp0 HD). reflexivity.
+Qed.
+
+Variables JJ DT D : R.
+Variable J dt0 : rq.
+Hypothesis HJ : equivalent_inertia c = Ok J.
+Hypothesis sJ : si J = Ok JJ.
+Hypothesis kJ : qk J = KInertiaMoment.
+Hypothesis sdt : si dt0 = Ok DT.
+Hypothesis HD : I0 / IM < Rabs D.
+Hypothesis Hpos : 0 <= I0 /\ 0 < IM /\ 0 < W0 /\ 0 < JJ.
+(** the coefficients of  w' = A - kap w  for the output element *)
+Definition A_lin : R := A_g c L JJ (TDs D).
+Definition kap_lin : R := kap_g c W0 JJ (TDs D) D.
+
+Lemma pmin_nonneg : 0 <= I0 / IM.
+Proof. destruct Hpos as (H1 & H2 & _). apply Rmult_le_pos; [lra|left; apply Rinv_0_lt_compat; lra]. Qed.
+Lemma nz_currents : D <> 0 /\ W0 <> 0 /\ JJ <> 0.
+Proof. destruct Hpos as (H1 & H2 & H3 & H4). generalize pmin_nonneg; intro Hp. repeat split; try lra. intros E0. assert (HD' := HD). rewrite E0, Rabs_R0 in HD'. lra. Qed.
+
+Theorem history_follows_euler (h : list (rq * @snap RA)) : hist_ok c load h -> uniform D dt0 h -> h <> [] ->
+  forall t0 s0 pre, h = (pre ++ [(t0, s0)])%list ->
+  forall w0 p0 W00 P00, lastq (s_spd s0) = Ok w0 -> lastq (s_pos s0) = Ok p0 -> si w0 = Ok W00 -> si p0 = Ok P00 ->
+  forall t s rest, h = (t, s) :: rest ->
+  exists wk pk, lastq (s_spd s) = Ok wk /\ lastq (s_pos s) = Ok pk /\
+    si wk = Ok (snd (C04Core.euler A_lin kap_lin DT W00 P00 (length rest))) /\
+    si pk = Ok (fst (C04Core.euler A_lin kap_lin DT W00 P00 (length rest))).
+Proof.
+  exact (history_follows_euler_g c load W0 L _ law_currents load_const JJ DT D J dt0 HJ sJ kJ sdt (TDs D) D (T_doc_linear D pmin_nonneg HD) nz_currents h).
+Qed.
+
 Hypothesis Hkap : 0 < kap_lin.
 Hypothesis Hx : kap_lin * DT <= 1/5.
 Hypothesis HDT : 0 < DT.
-Theorem model_converges (h : list (rq * @snap RA)) : hist_ok c load h -> uniform h -> h <> [] ->
+Theorem model_converges (h : list (rq * @snap RA)) : hist_ok c load h -> uniform D dt0 h -> h <> [] ->
   forall t0 s0 pre, h = (pre ++ [(t0, s0)])%list ->
   forall w0 p0 W00 P00, lastq (s_spd s0) = Ok w0 -> lastq (s_pos s0) = Ok p0 -> si w0 = Ok W00 -> si p0 = Ok P00 ->
   forall t s rest, h = (t, s) :: rest ->
@@ -194,10 +264,57 @@ Theorem model_converges (h : list (rq * @snap RA)) : hist_ok c load h -> uniform
     Rabs (Wk - C04Core.w_exact A_lin kap_lin W00 (INR k * DT)) <= 2/5 * (kap_lin * DT) * Rabs (W00 - A_lin / kap_lin) /\
     Rabs (Pk - C04Core.th_exact A_lin kap_lin W00 P00 (INR k * DT)) <= DT * Rabs (W00 - A_lin / kap_lin).
 Proof.
-  intros Hh Hu Hne t0 s0 pre E w0 p0 W00 P00 Hw0 Hp0 sw0 sp0 t s rest Ehd k.
-  destruct (history_follows_euler h Hh Hu Hne t0 s0 pre E w0 p0 W00 P00 Hw0 Hp0 sw0 sp0 t s rest Ehd) as (wk & pk & Hwk & Hpk & swk & spk).
-  exists wk, pk. do 2 eexists. split; [exact Hwk|]. split; [exact Hpk|]. split; [exact swk|]. split; [exact spk|]. split.
-  - apply C04Core.speed_error; assumption.
-  - apply C04Core.position_error; assumption.
+  exact (model_converges_g c load W0 L _ law_currents load_const JJ DT D J dt0 HJ sJ kJ sdt (TDs D) D (T_doc_linear D pmin_nonneg HD) nz_currents Hkap Hx HDT h).
 Qed.
 End Linear.
+
+(** ** a DC motor WITHOUT current data: the torque is Tmax (1 - w / w0) whatever the duty cycle *)
+Section NoCurrents.
+Variable c : @chain RA.
+Variable load : rq -> rq -> rq -> res rq.
+Hypothesis Hnone : m_i0 (c_motor c) = None \/ m_imax (c_motor c) = None.
+Variables W0 TM L : R.
+Hypothesis sW0 : si (m_w0 (c_motor c)) = Ok W0.
+Hypothesis sTM : si (m_Tmax (c_motor c)) = Ok TM.
+Hypothesis kT : qk (m_Tmax (c_motor c)) = KTorque.
+Hypothesis load_const : forall t p w lt, load t p w = Ok lt -> qk lt = KTorque /\ si lt = Ok L.
+
+Lemma law_nocurrents : forall (spd : rq) w D T, si spd = Ok w -> motor_torque (c_motor c) spd D = Ok T ->
+  qk T = KTorque /\ si T = Ok (TM * (1 - w / W0)).
+Proof.
+  intros spd w D T sw H. split; [|exact (motor_torque_nocurrent _ _ _ _ _ _ _ Hnone sW0 sTM kT sw H)].
+  unfold motor_torque, bind in H.
+  assert (H' : (r <- q_ratio spd (m_w0 (c_motor c)) ;; q_new KTorque (mul (sub one r) (qv (m_Tmax (c_motor c)))) (qu (m_Tmax (c_motor c)))) = Ok T).
+  { destruct Hnone as [Hn|Hn]; rewrite Hn in H; [exact H|]. destruct (m_i0 (c_motor c)); exact H. }
+  unfold bind in H'. destruct (q_ratio spd (m_w0 (c_motor c))); [|discriminate]. apply q_new_eq in H'. subst T. reflexivity.
+Qed.
+
+Variables JJ DT D : R.
+Variable J dt0 : rq.
+Hypothesis HJ : equivalent_inertia c = Ok J.
+Hypothesis sJ : si J = Ok JJ.
+Hypothesis kJ : qk J = KInertiaMoment.
+Hypothesis sdt : si dt0 = Ok DT.
+Hypothesis Hpos : 0 < W0 /\ 0 < JJ.
+Definition A_nc : R := A_g c L JJ TM.
+Definition kap_nc : R := kap_g c W0 JJ TM 1.
+Lemma nc_linear : forall w, (fun w (_ : R) => TM * (1 - w / W0)) w D = TM * (1 - w / (1 * W0)).
+Proof. intros w. cbv beta. f_equal. f_equal. f_equal. lra. Qed.
+Lemma nz_nc : 1 <> 0 /\ W0 <> 0 /\ JJ <> 0.
+Proof. destruct Hpos. repeat split; lra. Qed.
+
+Hypothesis Hkap : 0 < kap_nc.
+Hypothesis Hx : kap_nc * DT <= 1/5.
+Hypothesis HDT : 0 < DT.
+Theorem model_converges_nocurrent (h : list (rq * @snap RA)) : hist_ok c load h -> uniform D dt0 h -> h <> [] ->
+  forall t0 s0 pre, h = (pre ++ [(t0, s0)])%list ->
+  forall w0 p0 W00 P00, lastq (s_spd s0) = Ok w0 -> lastq (s_pos s0) = Ok p0 -> si w0 = Ok W00 -> si p0 = Ok P00 ->
+  forall t s rest, h = (t, s) :: rest ->
+  let k := length rest in
+  exists wk pk Wk Pk, lastq (s_spd s) = Ok wk /\ lastq (s_pos s) = Ok pk /\ si wk = Ok Wk /\ si pk = Ok Pk /\
+    Rabs (Wk - C04Core.w_exact A_nc kap_nc W00 (INR k * DT)) <= 2/5 * (kap_nc * DT) * Rabs (W00 - A_nc / kap_nc) /\
+    Rabs (Pk - C04Core.th_exact A_nc kap_nc W00 P00 (INR k * DT)) <= DT * Rabs (W00 - A_nc / kap_nc).
+Proof.
+  exact (model_converges_g c load W0 L (fun w _ => TM * (1 - w / W0)) law_nocurrents load_const JJ DT D J dt0 HJ sJ kJ sdt TM 1 nc_linear nz_nc Hkap Hx HDT h).
+Qed.
+End NoCurrents.
